@@ -433,8 +433,8 @@ func main() {
 	clog.SetLogLevel("crit")
 	r.QuietStderr()
 	debug.SetGCPercent(800)
-	prefixes := []string{"a", "a\xff", "\xff"}
-	r.Rule = "for each prefix in {\"a\", \"a\\xff\", \"\\xff\"}: 7 keys around it (below, equal, +0x00, +b, +0xff, +0xff0xff, equal to the upper bound / second key below); every key absent/live/tombstone (3^7 contents) on memdb via ListHelper, via KVDB and via the merged iterator over one layer (thorough: goleveldb on disk too); merged view: 5 keys (below, P, P+0xff, P+0xff0xff, bound) over 2 layers (direct merged iterator) and 3 layers (real LocalDB with an open transaction), in-prefix keys take every absent/live/tombstone combination per layer (thorough: all 5 keys in-prefix combinations incl. P+0x00), neighbours a reduced set; each content listed with every page size 1..n+1 x {ASC,DESC} x {value,key+value,key} continuing from the last returned key, plus PrefixCount. evaluations = List calls. distinct = (driver, live count, tombstones present, shadowed entries present) classes"
+	prefixes := []string{"a", "a\xff", "\xff", strings.Repeat("k", 129) + "m"} // the last: keys longer than any fixed scratch buffer
+	r.Rule = "for each prefix in {\"a\", \"a\\xff\", \"\\xff\", a 130-byte prefix}: 7 keys around it (below, equal, +0x00, +b, +0xff, +0xff0xff, equal to the upper bound / second key below); every key absent/live/tombstone (3^7 contents) on memdb via ListHelper, via KVDB and via the merged iterator over one layer (thorough: goleveldb on disk too); merged view: 5 keys (below, P, P+0xff, P+0xff0xff, bound) over 2 layers (direct merged iterator) and 3 layers (real LocalDB with an open transaction), in-prefix keys take every absent/live/tombstone combination per layer (thorough: all 5 keys in-prefix combinations incl. P+0x00), neighbours a reduced set; each content listed with every page size 1..n+1 x {ASC,DESC} x {value,key+value,key} continuing from the last returned key, plus PrefixCount. evaluations = List calls. distinct = (driver, live count, tombstones present, shadowed entries present) classes"
 	r.Assume = []string{
 		"values are non-empty for live entries and embed their key (needed to continue a value-only listing)",
 		"a listing ends at the first page shorter than the requested count",
